@@ -70,7 +70,9 @@ func (scp *Isolated) Kill() {
 
 // Stop stop the scope context without error
 func (scp *Isolated) Stop() {
+	verifPoint("stop.enter")
 	scp.doneOnce.Do(func() {
+		verifPoint("stop.closing")
 		close(scp.done)
 	})
 }
@@ -102,6 +104,7 @@ func (scp *Isolated) AppendError(errs ...error) {
 		i++
 	}
 	scp.errorsMU.Unlock()
+	verifPoint("append.stored")
 	if i != 0 {
 		scp.Stop()
 	}
